@@ -142,10 +142,16 @@ func runC03(c *Ctx) {
 	}
 	r.Floor("R1", "send on the inbound queue", len(sends), 1)
 	var producer *ssa.Function
+	pfr := c.producerFrame()
 	for _, op := range sends {
 		fn := op.In.Parent()
 		ok := a.IsMember(fn) && fn.Parent() == nil
 		why := "send is in the body of member goroutine " + c.FuncKey(fn)
+		if !ok && pfr != nil && pfr.Via != nil && fn == pfr.Frame {
+			// the per-line helper of the receive goroutine: called by it alone, once per line, never used as a value
+			fn, ok = pfr.Member, true
+			why = "send is in " + c.FuncKey(pfr.Frame) + ", the per-line helper only " + c.FuncKey(pfr.Member) + " calls"
+		}
 		if !ok {
 			why = "send on the inbound queue outside a connection goroutine's own body (in " + c.FuncKey(fn) + ")"
 		} else {
@@ -458,6 +464,9 @@ func (c *Ctx) connDispatchRule(rule string, consumer *ssa.Function, recvs []Chan
 		}
 		if isEvent {
 			continue // lifecycle pseudo-events: R4/R5 and C06
+		}
+		if c.eventHelperParam(fn, a.ConnDispatch, c.FieldVar(c.Client, "Line", "Cmd")) >= 0 {
+			continue // the dispatch inside an event helper: its call sites are the lifecycle events
 		}
 		ok := fn == consumer && kindName(cs) == "call"
 		why := kindName(cs) + " in " + c.FuncKey(fn)
